@@ -6,7 +6,7 @@
    writer makes of them: str(value), None for None.
    Float cells are a parameter: repr_float / parse_float stand for Python's str(float) and
    float(text), f_neg for value < 0 (the Task constructor rejects negative estimates).
-   Not modelled (the domain of the theorems excludes it, see WbsProofs.v): the graph checks of
+   Not modelled (the domain of the theorems excludes it, see WbsSpec.v): the graph checks of
    the dependency setters (cycles, links between ancestor and descendant), duplicate ids and
    duplicate column names (answered with Crash OutOfFuel = outside the model).
    Definitions only. *)
